@@ -520,6 +520,10 @@ def n_fresh_felt_result(n):
     """adversarial host: every value it returns is an unconstrained field element"""
     def h(interp, args, dty, m):
         def fe():
+            script = getattr(interp, "advice_script", None)
+            if script:
+                # honest-host runs: the next scripted hint value instead of an adversarial one
+                return F(Lin({}, script.pop(0) % P))
             return F(interp.ctx.var(interp.fresh("adv")))
         if n == 1:
             v = fe()
